@@ -231,3 +231,47 @@ pub fn beatmap_from_trace(t: &crate::obs::recorder::Trace) -> Beatmap {
     }
     st.into()
 }
+
+/// Domain test of C02/C03: are the *accepted* timing-point lines and the *accepted*
+/// hit-object lines of this input each in non-decreasing time order? Acceptance is
+/// decided by the public per-line parsers on a scratch state, the time is the first
+/// (timing) / third (object) field.
+pub fn is_chronological(bytes: &[u8]) -> bool {
+    use crate::obs::recorder::Trace;
+    use rosu_map::{
+        section::{hit_objects::HitObjects, timing_points::TimingPoints},
+        DecodeBeatmap, DecodeState,
+    };
+    let Ok(trace) = rosu_map::from_bytes::<Trace>(bytes) else { return false };
+    let tc = |s: &str| -> String { s.find("//").map_or(s, |i| &s[..i]).trim_end().to_string() };
+    let mut last_tp = f64::NEG_INFINITY;
+    let mut last_ho = f64::NEG_INFINITY;
+    let mut ho_state = <HitObjects as DecodeBeatmap>::State::create(14);
+    for (sec, line) in &trace.calls {
+        match sec {
+            5 => {
+                let mut st = <TimingPoints as DecodeBeatmap>::State::create(14);
+                if TimingPoints::parse_timing_points(&mut st, line).is_ok() {
+                    let l = tc(line);
+                    let Some(t) = l.split(',').next().and_then(|f| f.trim().parse::<f64>().ok()) else { return false };
+                    if t < last_tp {
+                        return false;
+                    }
+                    last_tp = t;
+                }
+            }
+            7 => {
+                if HitObjects::parse_hit_objects(&mut ho_state, line).is_ok() {
+                    let Some(t) = ho_state.hit_objects.last().map(|h| h.start_time) else { return false };
+                    ho_state.hit_objects.clear();
+                    if t < last_ho {
+                        return false;
+                    }
+                    last_ho = t;
+                }
+            }
+            _ => {}
+        }
+    }
+    true
+}
